@@ -720,6 +720,16 @@ fn apply_fault(data: &mut Vec<u8>, f: &Value) -> bool {
             *data = toks.join(" ").into_bytes();
             true
         }
+        "cbor_nest" => {
+            // n nested one-element array heads (0x81) in front of the item at pos: recursion probe for the CBOR decoders
+            let p = jusize(f, "pos");
+            if p > data.len() {
+                return false;
+            }
+            let n = jusize(f, "n").min(400_000);
+            data.splice(p..p, std::iter::repeat(0x81u8).take(n));
+            true
+        }
         "nest" => {
             // n x OP_IF ... n x OP_ENDIF around the artefact (recursion probe)
             let n = jusize(f, "n");
@@ -776,15 +786,18 @@ impl Scenario for ArtefactMedium {
             let json_kind = kind.starts_with("json_") || kind == "tx_json";
             let token_kind = matches!(kind, "script_asm" | "template_asm" | "xprv_path" | "xpub_path");
             let f = if json_kind && rng.chance(1, 2) {
-                json!({"f": "json_value", "k": rng.below(12), "with": *rng.pick(&["1", "-1", "0", "1e400", "18446744073709551616", "4294967296", "null", "true", "[]", "{}", "\"\"", "\"zz\"", "\"00\"", "[1,2,3]", "{\"a\":1}", "1.5", "\"\u{e9}\u{20ac}\"", "99999999999999999999999999999999999999"])})
+                json!({"f": "json_value", "k": rng.below(12), "with": *rng.pick(&["1", "-1", "0", "1e400", "18446744073709551616", "4294967296", "null", "true", "[]", "{}", "\"\"", "\"zz\"", "\"00\"", "[1,2,3]", "{\"a\":1}", "1.5", "\"\u{e9}\u{20ac}\"", "\"0\u{e9}1\"", "\"\u{20ac}0\"", "\"z\u{e9}0\"", "\"00\u{e9}\"", "\"0\\u00e91\"", "99999999999999999999999999999999999999"])})
             } else if token_kind && rng.chance(1, 2) {
-                json!({"f": "token", "k": rng.below(16), "insert": rng.chance(1, 2), "with": *rng.pick(&["", "", "OP_PUSH", "OP_PUSHDATA1", "OP_PUSHDATA2", "OP_PUSHDATA4", "OP_PUSH 4294967295 00", "OP_PUSHDATA4 4294967296 00", "OP_DATA=4294967296", "OP_DATA>=18446744073709551616", "OP_DATA<", "OP_DATA=", "OP_DATA=-1", "OP_DATA>", "0x", "zz", "é€", "a€", "OP_é", "17", "-1", "2147483648", "2147483647'", "4294967295", "4294967296", "2147483648h", "99999999999999999999", "'", "h", "/", "m", "m/", "0''", "OP_IF", "OP_ENDIF", "OP_ELSE", "\n", "\r", "\t"])})
+                json!({"f": "token", "k": rng.below(16), "insert": rng.chance(1, 2), "with": *rng.pick(&["", "", "OP_PUSH", "OP_PUSHDATA1", "OP_PUSHDATA2", "OP_PUSHDATA4", "OP_PUSH 4294967295 00", "OP_PUSHDATA4 4294967296 00", "OP_PUSHDATA4 1073741824 00", "OP_PUSHDATA4 4294967295 00", "OP_PUSHDATA2 65535 00", "OP_PUSHDATA1 255 00", "OP_PUSH 75 00", "OP_PUSH 0 ", "OP_DATA20=", "OP_DATA==5", "OP_DATA=4294967296", "OP_DATA>=18446744073709551616", "OP_DATA<", "OP_DATA=", "OP_DATA=-1", "OP_DATA>", "0x", "zz", "é€", "a€", "OP_é", "17", "-1", "2147483648", "2147483647'", "4294967295", "4294967296", "2147483648h", "99999999999999999999", "'", "h", "/", "m", "m/", "0''", "OP_IF", "OP_ENDIF", "OP_ELSE", "\n", "\r", "\t"])})
             } else { match rng.weighted(&[22, 10, 6, 26, 8, 3, 6, 2, 3, 4, 3]) {
                 0 => json!({"f": "truncate", "k": if len > 0 { rng.usize(len) } else { 0 }}),
                 1 => json!({"f": "flip", "pos": if len > 0 { rng.usize(len) } else { 0 }, "bit": rng.below(8)}),
                 2 => json!({"f": "set", "pos": if len > 0 { rng.usize(len) } else { 0 }, "val": *rng.pick(&[0u64, 0xff, 0xfd, 0xfe, 0x4c, 0x4d, 0x4e, 0x63, 0x68, 0x80, 0x7f, 0x20, 0x20, 0x2f, 0x27, 0x30, 0x39, 0x68, 0x6d, 0x3d, 0x3e, 0x3c, 0x22, 0x7b, 0x5b, 0x2c, 0x3a, 0x2d, 0xc3, 0xe2])}),
                 3 => {
-                    if !cbor_heads.is_empty() && rng.chance(3, 4) {
+                    if !cbor_heads.is_empty() && rng.chance(1, 8) {
+                        let (pos, _) = *rng.pick(&cbor_heads);
+                        json!({"f": "cbor_nest", "pos": pos, "n": if rng.chance(1, 3) { rng.range(1000, big) } else { rng.range(1, 300) }})
+                    } else if !cbor_heads.is_empty() && rng.chance(3, 4) {
                         // replace one CBOR head by another head (any major type) that declares an extreme length
                         let (pos, hl) = *rng.pick(&cbor_heads);
                         json!({"f": "inflate", "pos": pos, "pat": *rng.pick(&Self::INFLATE[16..]), "replace": hl})
